@@ -477,7 +477,11 @@ func cmdShrink(args []string) {
 	budget := fs.Int("budget", 1500, "candidate executions")
 	fs.Parse(args)
 	rec := loadRec(*file)
-	isRace := strings.Contains(rec.Signature, "/race/")
+	// Race verdicts need a fresh process per candidate (ThreadSanitizer reports a stack pair once per process); runs that
+	// end in a deadlock, a step cap or a goroutine panic leave their goroutines parked for ever, so their candidates
+	// run in fresh processes too instead of accumulating leaked goroutines in this one.
+	isRace := strings.Contains(rec.Signature, "/race/") || strings.Contains(rec.Signature, "/deadlock/") ||
+		strings.Contains(rec.Signature, "/no-return/") || strings.Contains(rec.Signature, "/goroutine-panic/")
 	tries := 0
 	tmp := *out + ".cand"
 	// test reports whether draws still produce the recorded signature.
